@@ -384,15 +384,50 @@ def r20_5(ctx):
 
 
 def r20_6(ctx):
-    rr = RuleResult("R20.6", "COVER", "grid sensitivity is declared by un-aligned plain Blockwise, MapBlocksOutput and Blocks; map_blocks builds un-aligned blockwise nodes", min_instances=5)
+    rr = RuleResult("R20.6", "COVER", "grid sensitivity is declared by un-aligned plain Blockwise, by a plain Blockwise holding a per-block adjust_chunks tuple, by MapBlocksOutput and by Blocks; map_blocks builds un-aligned blockwise nodes", min_instances=5)
     repo = ctx.repo
     bw = repo.mod("dask_array._blockwise").cls("Blockwise")
     f = bw.methods.get("_requires_grid_preservation")
     need(f is not None, "Blockwise._requires_grid_preservation")
     rets = [unparse(n.value) for n in body_walk(f.node) if isinstance(n, ast.Return)]
     rr.inst(site(f), returns=rets)
-    if rets != ["type(self) is Blockwise and (not self.align_arrays)"]:
-        ctx.finding(rr, site(f), f"Blockwise._requires_grid_preservation returns {rets}; expected `type(self) is Blockwise and not self.align_arrays`", func=f)
+    # conditions under which the method answers True: the guard chain of each ``return`` (early exits unified, locals
+    # looked through) plus, for ``return <expr>``, the conjuncts of the expression itself
+    from ..cfg import CFG
+    from ..dataflow import Defs
+    from ..refguards import _conjuncts, _inline, _nnf
+    from .common import chain_conjuncts
+
+    cfg = CFG(f.node)
+    fdefs = Defs(f.node)
+    truth_paths = []
+    for st in cfg.stmts():
+        if not isinstance(st, ast.Return) or st.value is None:
+            continue
+        if isinstance(st.value, ast.Constant) and not st.value.value:
+            continue
+        conj = set(chain_conjuncts(cfg, st, f.node, f.module))
+        if not (isinstance(st.value, ast.Constant) and st.value.value is True):
+            for lit in _conjuncts(_nnf(_inline(st.value, fdefs, module=f.module), True)):
+                ast.fix_missing_locations(lit)
+                conj.add(unparse(lit))
+        truth_paths.append(conj)
+    # a plain Blockwise observes its inputs' grid (a) when it is not aligned at lowering (map_blocks: block_info payloads)
+    # and (b) when adjust_chunks holds a per-block tuple - a literal with one entry per INPUT block
+    consults_alignment = any("type(self) is Blockwise" in cj and any("align_arrays" in c and c.startswith("not ") for c in cj) for cj in truth_paths)
+    consults_literal = any("type(self) is Blockwise" in cj and any("adjust_chunks" in c and ("tuple" in c or "list" in c) for c in cj) for cj in truth_paths)
+    if not consults_alignment:
+        ctx.finding(rr, site(f), f"Blockwise._requires_grid_preservation returns {rets}; it no longer declares an un-aligned plain Blockwise grid sensitive (`type(self) is Blockwise and not self.align_arrays`)", func=f)
+    c2 = site(f) + "::per-block adjust_chunks tuple"
+    rr.inst(c2, consulted=consults_literal)
+    if not consults_literal:
+        ctx.finding(
+            rr, c2,
+            "Blockwise._requires_grid_preservation does not look at adjust_chunks: a per-block tuple there has one entry per input block, so the node observes its input's grid even when "
+            "align_arrays is true (the public blockwise() default) - da.blockwise(f, 'i', s, 'i', adjust_chunks={'i': tuple(2 * c for c in s.chunks[0])}) over a sliding-window "
+            "reduction s raised 'Dimension 0 has 4 blocks, adjust_chunks specified with 2 blocks' while being optimized",
+            func=f,
+        )
     mbo = repo.mod("dask_array._map_blocks").cls("MapBlocksOutput")
     g = mbo.methods.get("_requires_grid_preservation")
     rr.inst(f"{mbo.construct}::_requires_grid_preservation", defined=g is not None)
